@@ -427,7 +427,9 @@ def main(tier, replay_file=None):
             operand_values="all (full width bit-vectors, whole initial "
                            "stack and map memory symbolic)",
             constants="enumerated boundary set",
-            outside="deeper trees; constants outside the set; 64-bit "
+            outside="deeper trees (thorough: a depth-3 sample is explored as "
+                    "far as the solver decides it, undecided ones are listed "
+                    "and not claimed); constants outside the set; 64-bit "
                     "intermediate overflow before a width-sensitive operator "
                     "(excluded by the oracle's conservative exactness flags)"),
         stubs=["create_map/mmap replaced by recording stubs (no kernel object)",
@@ -457,6 +459,18 @@ def main(tier, replay_file=None):
             agg[k] = agg.get(k, 0) + res.get(k, 0)
         for k, v in res.get("reject_kinds", {}).items():
             agg.setdefault("reject_kinds", {}).setdefault(k, []).extend(v[:3])
+    # the depth-3 sample goes beyond the stated bound (depth 1 exhaustive,
+    # depth 2 sampled): a depth-3 statement the solver does not finish is
+    # reported as not explored (listed in the evidence), not as a failure
+    deep = [u for u in ck.undecided_list if u.split(":")[0].count("(") >= 3]
+    if deep:
+        ck.extra["depth3_statements_not_decided"] = deep
+        ck.undecided_list = [u for u in ck.undecided_list if u not in deep]
+        ck.undecided -= len(deep)
+        ck.obligations -= len(deep)
+        for u in deep:
+            print(f"INCONCLUSIVE: property=C01 {u} (depth-3 sample, solver "
+                  "budget exhausted; outside the claim)")
     ck.extra["shapes"] = len(stmts)
     ck.extra["decided_by_uf_abstraction"] = agg.get("abs_decided", 0)
     ck.extra["decided_by_cvc5_int_encoding"] = agg.get("fb_decided", 0)
